@@ -4,7 +4,8 @@
 `make_optional_kind`; found through the calls, not by position) are parsed (a small recursive-descent parser for the
 subset of Rust they use) and written, statement by statement, as Lean *definitions* over the primitives of
 `Model/JoinIR.lean`; `enum JoinMode` becomes an inductive type and the six `compile_table_join(arguments, JoinMode::X)`
-wrappers a table.
+wrappers a table (with the `register_descriptor!` names of the wrappers and, from expressions.rs, the wrapper each
+`TableOp` compiles).
 
     let [mut] p [: T] = e;                    let p [: T] := e;
     x.push(e); / x.insert(k, v); / x[i] = e; / x = e;
@@ -56,7 +57,7 @@ LEAN_RESERVED = {"at", "from", "fun", "end", "do", "then", "else", "if", "let", 
                  "true", "false", "some", "none", "default", "toString",
                  # names the generated definitions use themselves
                  "HashMap", "HashSet", "IndexMap", "AList", "List", "Option", "Nat", "Bool", "String", "Value", "ValueKind", "MechTable",
-                 "Matrix", "JoinMode", "index1d", "vecGet", "iter", "rangeIncl", "u64_to_string", "compilers"}
+                 "Matrix", "JoinMode", "index1d", "vecGet", "iter", "rangeIncl", "u64_to_string", "compilers", "operands", "descriptors", "symbolForms"}
 
 TOK = re.compile(r'"(?:[^"\\]|\\.)*"|[A-Za-z_]\w*|\d+|\.\.=|\.\.|::|=>|->|==|!=|<=|>=|&&|\|\||\+=|-=|\*=|[-+*/%^<>=(){}\[\];,.&!|:#?\'@$]')
 
@@ -695,6 +696,29 @@ def read_compilers(text, modes):
     if not out: raise Unrecognised("no compile_table_join wrappers found")
     return out
 
+EXPR_RS = "src/interpreter/src/expressions.rs"
+
+def read_descriptors(text, structs):
+    """register_descriptor! { FunctionCompilerDescriptor { name: "table/…", ptr: &Struct{} } } for the join wrappers"""
+    out = []
+    for m in re.finditer(r'register_descriptor!\s*\{\s*FunctionCompilerDescriptor\s*\{\s*name\s*:\s*"([^"]*)"\s*,\s*ptr\s*:\s*&\s*(\w+)\s*\{\s*\}\s*,?\s*\}\s*\}', text):
+        if m.group(2) in structs: out.append((m.group(1), m.group(2)))
+    if sorted(s for _, s in out) != sorted(structs): raise Unrecognised("the descriptors of the join wrappers")
+    return out
+
+def read_symbol_forms(repo, structs):
+    """expressions.rs: `FormulaOperator::Table(TableOp::X) => Struct {}.compile(&vec![lhs, rhs])?` — variant, struct, and
+    whether the operands are handed on as (lhs, rhs) where `lhs`, `rhs` are the first and second operand of the arm's match"""
+    text = strip_comments(open(os.path.join(repo, EXPR_RS), newline='').read().replace('\r\n', '\n'))
+    out = []
+    for m in re.finditer(r'FormulaOperator\s*::\s*Table\s*\(\s*TableOp\s*::\s*(\w+)\s*\)\s*=>\s*(\w+)\s*\{\s*\}\s*\.\s*compile\s*\(\s*&\s*vec!\s*\[\s*(\w+)\s*,\s*(\w+)\s*\]\s*\)', text):
+        if m.group(2) not in structs: raise Unrecognised("TableOp::%s compiles %s" % (m.group(1), m.group(2)))
+        out.append((m.group(1), m.group(2), m.group(3), m.group(4)))
+    if not out: raise Unrecognised("no TableOp arms found in expressions.rs")
+    a, b = out[0][2], out[0][3]
+    if a == b or any((x[2], x[3]) not in ((a, b), (b, a)) for x in out): raise Unrecognised("TableOp arms: operands")
+    return [(v, s, (x, y) == (a, b)) for v, s, x, y in out]
+
 ORDER = ['make_optional_kind', 'rows_match', 'merge_rows', 'lhs_only_row']
 
 def extract(repo="/repo"):
@@ -729,33 +753,44 @@ def extract(repo="/repo"):
     cparams, _, _ = find_fn(toks, 'compile_table_join', body=False)
     if len(cparams) != 2 or cparams[1][0] != ('pid', m.group(3)) or ty_head(cparams[1][1]) != 'JoinMode':
         raise Unrecognised("compile_table_join does not hand its mode to build_joined_table")
-    a = re.search(r'let\s+%s\s*=\s*(\w+)\s*\(\s*&\s*%s\s*\[\s*0\s*\]\s*\)' % (m.group(1), cparams[0][0][1]), text)
-    b = re.search(r'let\s+%s\s*=\s*(\w+)\s*\(\s*&\s*%s\s*\[\s*1\s*\]\s*\)' % (m.group(2), cparams[0][0][1]), text)
-    if not a or not b or a.group(1) != b.group(1): raise Unrecognised("compile_table_join: the operands are not arguments[0], arguments[1] in this order")
+    a = re.search(r'let\s+%s\s*=\s*(\w+)\s*\(\s*&\s*%s\s*\[\s*(\d+)\s*\]\s*\)' % (m.group(1), cparams[0][0][1]), text)
+    b = re.search(r'let\s+%s\s*=\s*(\w+)\s*\(\s*&\s*%s\s*\[\s*(\d+)\s*\]\s*\)' % (m.group(2), cparams[0][0][1]), text)
+    if not a or not b or a.group(1) != b.group(1): raise Unrecognised("compile_table_join: the operands are not taken from the argument list by one resolver")
+    operands = (int(a.group(2)), int(b.group(2)))
     compilers = read_compilers(text, modes)
-    return modes, [defs[f] for f in order] + [main], compilers
+    structs = [c[0] for c in compilers]
+    return modes, [defs[f] for f in order] + [main], compilers, operands, read_descriptors(text, structs), read_symbol_forms(repo, structs)
 
 HEADER = ["/- GENERATED by tools/extract_join.py from src/interpreter/src/stdlib/table_ops.rs (`build_joined_table` and the",
           "   functions it calls, `enum JoinMode`, the `compile_table_join` wrappers) — do not edit. -/",
           "import MechVerif.Model.JoinIR", "namespace MechVerif.Gen.JoinKernel", "open MechVerif.JoinIR",
           "set_option linter.unusedVariables false", ""]
 
-def render(modes, defs, compilers):
+def render(modes, defs, compilers, operands, descriptors, symbols):
     L = list(HEADER)
     L += ["inductive JoinMode where", "  " + " ".join("| " + v for v in modes), "deriving DecidableEq, Repr", ""]
     for d in defs: L += [d, ""]
-    L += ["/-- the `NativeFunctionCompiler` wrappers and the mode each hands to `compile_table_join` (which hands it, and",
-          "    `arguments[0]`, `arguments[1]` in this order, to `build_joined_table`) -/",
+    L += ["/-- `compile_table_join(arguments, mode)` calls `build_joined_table(arguments[i], arguments[j], mode)` -/",
+          "def operands : Nat × Nat := (%d, %d)" % operands, "",
+          "/-- the `NativeFunctionCompiler` wrappers and the mode each hands to `compile_table_join` -/",
           "def compilers : List (String × JoinMode) :=",
           "  [" + ", ".join('("%s", .%s)' % c for c in compilers) + "]", "",
+          "/-- `register_descriptor!`: the word form of each wrapper -/",
+          "def descriptors : List (String × String) :=",
+          "  [" + ", ".join('("%s", "%s")' % d for d in descriptors) + "]", "",
+          "/-- expressions.rs: the wrapper each `TableOp` compiles, and whether it receives the operands in the order of the",
+          "    first arm (`vec![lhs, rhs]`) -/",
+          "def symbolForms : List (String × String × Bool) :=",
+          "  [" + ", ".join('("%s", "%s", %s)' % (v, st, "true" if o else "false") for v, st, o in symbols) + "]", "",
           "end MechVerif.Gen.JoinKernel", ""]
     return "\n".join(L)
 
 def generate(root, repo="/repo"):
-    try: modes, defs, compilers = extract(repo)
+    try: ex = extract(repo)
     except (Unrecognised, OSError, IndexError, KeyError, TypeError) as e:
         return False, "C18 join-kernel extraction failed: %s" % e
-    text = render(modes, defs, compilers)
+    modes, defs, compilers = ex[0], ex[1], ex[2]
+    text = render(*ex)
     out = os.path.join(root, 'lean', 'MechVerif', 'Gen', 'JoinKernel.lean')
     old = open(out).read() if os.path.exists(out) else None
     if old != text: open(out, 'w').write(text)
@@ -764,8 +799,7 @@ def generate(root, repo="/repo"):
 if __name__ == '__main__':
     root = os.path.dirname(os.path.dirname(os.path.abspath(__file__)))
     if len(sys.argv) > 1 and sys.argv[1] == '--show':
-        modes, defs, compilers = extract(sys.argv[2] if len(sys.argv) > 2 else "/repo")
-        print(render(modes, defs, compilers))
+        print(render(*extract(sys.argv[2] if len(sys.argv) > 2 else "/repo")))
     else:
         repo, outroot = "/repo", root
         for a in sys.argv[1:]:
